@@ -295,11 +295,58 @@ struct Probe {
     detect: bool,
     depth: usize,
     width: u8,
+    /// 0 as built; 1 the document follows blank lines / comments (>= 32 bytes);
+    /// 2 the innermost scalar is a string of 3 MiB
+    pad: u8,
+}
+
+/// Variants of a nested document that leave its depth alone.
+fn padded(doc: Vec<u8>, fmt: Fmt, shape: Shape, width: u8, pad: u8) -> Option<Vec<u8>> {
+    match pad {
+        0 => Some(doc),
+        1 => {
+            let lead: &[u8] = match fmt {
+                Fmt::Json => b" \n  \n \r\n     \n   \n  \n      \n    \n",
+                Fmt::Yaml => b"# one comment line\n\n# and another one\n  \n",
+                Fmt::Toml => b"# one comment line\n\n# and another one\n  \n",
+                Fmt::Msgpack => return None,
+            };
+            let mut out = lead.to_vec();
+            out.extend(doc);
+            Some(out)
+        }
+        _ => {
+            // only where the scalar at the bottom is the single '1' / 0x01 of the text
+            if !matches!(shape, Shape::Arrays | Shape::Maps) {
+                return None;
+            }
+            let big = vec![b'v'; 3 << 20];
+            match fmt {
+                Fmt::Json | Fmt::Yaml => {
+                    let at = doc.iter().rposition(|b| *b == b'1')?;
+                    let mut out = doc[..at].to_vec();
+                    out.push(b'"');
+                    out.extend(&big);
+                    out.push(b'"');
+                    out.extend(&doc[at + 1..]);
+                    Some(out)
+                }
+                Fmt::Msgpack if width == 0 && shape == Shape::Arrays => {
+                    let mut out = doc[..doc.len() - 1].to_vec();
+                    out.push(0xdb);
+                    out.extend((big.len() as u32).to_be_bytes());
+                    out.extend(&big);
+                    Some(out)
+                }
+                _ => None,
+            }
+        }
+    }
 }
 
 impl Probe {
     fn to_json(&self, unit: &str) -> J {
-        json!({"unit": unit, "fmt": self.fmt.name(), "shape": self.shape.name(), "to": self.to.name(), "mode": self.mode.to_json(), "detect": self.detect, "depth": self.depth, "width": self.width})
+        json!({"unit": unit, "fmt": self.fmt.name(), "shape": self.shape.name(), "to": self.to.name(), "mode": self.mode.to_json(), "detect": self.detect, "depth": self.depth, "width": self.width, "pad": self.pad})
     }
     fn from_json(j: &J) -> Option<Probe> {
         Some(Probe {
@@ -310,6 +357,7 @@ impl Probe {
             detect: j["detect"].as_bool()?,
             depth: j["depth"].as_u64()? as usize,
             width: j["width"].as_u64().unwrap_or(0) as u8,
+            pad: j["pad"].as_u64().unwrap_or(0) as u8,
         })
     }
 }
@@ -338,7 +386,7 @@ pub fn measured_limit(fmt: Fmt) -> Result<usize, String> {
 }
 
 fn check_probe(p: &Probe, limit: usize) -> Result<bool, String> {
-    let doc = match far_doc(p.fmt, p.shape, p.depth, p.width) {
+    let doc = match far_doc(p.fmt, p.shape, p.depth, p.width).and_then(|d| padded(d, p.fmt, p.shape, p.width, p.pad)) {
         Some(d) => d,
         None => return Ok(false),
     };
@@ -514,8 +562,23 @@ impl Check for C18 {
                                             if width > 0 {
                                                 rec.class("msgpack_wide_headers");
                                             }
-                                            if !run(Probe { fmt, shape, to, mode: mode.clone(), detect, depth, width }, unit.name, rec) {
+                                            if !run(Probe { fmt, shape, to, mode: mode.clone(), detect, depth, width, pad: 0 }, unit.name, rec) {
                                                 return;
+                                            }
+                                            // the same document after blank lines / comments, and (next
+                                            // to the limit, one target) around a 3 MiB scalar
+                                            if unit.name == "window" && fmt != Fmt::Msgpack && mi < 2 {
+                                                rec.class("padded:leading_blank_or_comment");
+                                                if !run(Probe { fmt, shape, to, mode: mode.clone(), detect, depth, width, pad: 1 }, unit.name, rec) {
+                                                    return;
+                                                }
+                                            }
+                                            // (a TOML reader of 2 MiB or more is outside detection by design)
+                                            if unit.name == "window" && to == Fmt::Json && mi < 2 && depth + 1 >= limit && depth <= limit + 1 && fmt != Fmt::Toml {
+                                                rec.class("padded:huge_scalar");
+                                                if !run(Probe { fmt, shape, to, mode: if mi == 0 { Mode::Slice } else { Mode::Reader(Sched::Fixed(65536)) }, detect, depth, width, pad: 2 }, unit.name, rec) {
+                                                    return;
+                                                }
                                             }
                                         }
                                     }
@@ -551,7 +614,7 @@ impl Check for C18 {
                                 };
                                 let widths: &[u8] = if fmt == Fmt::Msgpack { &[0, 1, 2] } else { &[0] };
                                 for &width in widths {
-                                    if !run(Probe { fmt, shape, to, mode: mode.clone(), detect, depth, width }, "far", rec) {
+                                    if !run(Probe { fmt, shape, to, mode: mode.clone(), detect, depth, width, pad: 0 }, "far", rec) {
                                         return;
                                     }
                                 }
